@@ -38,6 +38,8 @@ def cases(rng, tier):
         out.append(S.scenario_case(spec, 'single-fault-grid'))
     for _ in range(400 if tier == 'thorough' else 60):
         out.append(S.scenario_case(S.gen_request_tail(rng), 'request-tail'))
+    for _ in range(300 if tier == 'thorough' else 40):
+        out.append(S.scenario_case(S.gen_concurrent(rng), 'concurrent'))
     # two faults over every pair of frames of a short segmented transfer (seeded slice in quick)
     nodes = S.two_nodes(know=False, retries=1, apduTimeout=1000, segTimeout=500)
     req = {'t': 0, 'src': 1, 'dst': 2, 'len': 70, 'service': 12, 'resp': ['complex', 70], 'resp_delay': 0}
